@@ -119,7 +119,22 @@ def fitting_config(g, objs_span, **kw):
 
 # ------------------------------------------------------------------------------------ profiles
 
+def nest(g, objs, p=0.3):
+    """With probability p put the objects one or two blocks deep: an analysis must reach (and report from) every
+    depth of the tree, not only the top level."""
+    if not g.chance(p):
+        return objs
+    inner = {"kind": "block", "name": "Inner", "objects": objs}
+    if g.chance(0.5):
+        return [inner]
+    return [{"kind": "block", "name": "Outer", "objects": [inner]}]
+
+
 def prof_layout(g, n):
+    return [dict(c, adef=dict(c["adef"], objects=nest(g, c["adef"]["objects"]))) for c in _prof_layout(g, n)]
+
+
+def _prof_layout(g, n):
     """C11 / C03b: one register or command, ranges drawn around each other's endpoints."""
     out = []
     for i in range(n):
@@ -233,6 +248,21 @@ def prof_mixed(g, n, **kw):
         g.reset_names()
         objs, span = build_tree(g, **kw)
         cfg = g.config(addr_types=("u16", "i16", "u32", "i32", "i64", "u8"), byte_order_p=0.8)
+        if kw.get("neg") and g.chance(0.35):
+            # negative addresses (the book allows them): shift every top-level address / offset below zero and
+            # declare signed address types for all kinds
+            d = g.r.randint(1, max(2, span + 2))
+            for o in objs:
+                if o["kind"] == "block":
+                    o["address_offset"] = str(int(o.get("address_offset", "0")) - d)
+                elif o["kind"] == "ref":
+                    key = "address_offset" if o["override"]["kind"] == "block" else "address"
+                    if key in o["override"]:
+                        o["override"][key] = str(int(o["override"][key]) - d)
+                else:
+                    o["address"] = str(int(o["address"]) - d)
+            for k in ("register_address_type", "command_address_type", "buffer_address_type"):
+                cfg[k] = g.pick(["i16", "i32", "i64"])
         out.append(case({"config": cfg, "objects": objs}, pick_syntax(g), "mixed"))
     return out
 
@@ -255,7 +285,7 @@ CORPUS = {}
 ENUM_ALPHABET = [None, "0", "1", "2", "3", "-1", "default", "catch_all"]
 
 
-def enum_case(width, values, use_try, base="uint", syntax="json", profile="enum", reuse=None, cfgs=None):
+def enum_case(width, values, use_try, base="uint", syntax="json", profile="enum", reuse=None, cfgs=None, nested=0):
     variants = []
     for i, v in enumerate(values):
         var = {"name": "V%d" % i, "value": v}
@@ -271,10 +301,30 @@ def enum_case(width, values, use_try, base="uint", syntax="json", profile="enum"
                        "conversion": {"type": "En", "try": rtry}})
         size = width + rw
     reg = {"kind": "register", "name": "R", "address": "0", "size_bits": size, "byte_order": "LE", "fields": fields}
-    return case({"config": {"register_address_type": "u8"}, "objects": [reg]}, syntax, profile)
+    objs = [reg]
+    if nested:
+        objs = [{"kind": "block", "name": "Bank", "objects": objs}]
+        if nested > 1:
+            objs = [{"kind": "block", "name": "Chip", "objects": objs}]
+    return case({"config": {"register_address_type": "u8"}, "objects": objs}, syntax, profile)
 
 
 def prof_enum(g, tier):
+    out = _prof_enum(g, tier)
+    # a fifth of the cases again with the register one or two blocks deep
+    extra = []
+    for c in out:
+        if g.chance(0.2):
+            c2 = json.loads(json.dumps(c))
+            objs = [{"kind": "block", "name": "Bank", "objects": c2["adef"]["objects"]}]
+            if g.chance(0.4):
+                objs = [{"kind": "block", "name": "Chip", "objects": objs}]
+            c2["adef"]["objects"] = objs
+            extra.append(c2)
+    return out + extra
+
+
+def _prof_enum(g, tier):
     import itertools
     out = []
     thorough = tier == "thorough"
@@ -432,7 +482,10 @@ def vary_order_source(g, c):
 
 
 def prof_reset(g, tier):
-    return [vary_order_source(g, c) for c in _prof_reset(g, tier)]
+    out = [vary_order_source(g, c) for c in _prof_reset(g, tier)]
+    for c in out:
+        c["adef"]["objects"] = nest(g, c["adef"]["objects"], p=0.25)
+    return out
 
 
 def _prof_reset(g, tier):
@@ -463,6 +516,10 @@ def _prof_reset(g, tier):
                                 f2 = "array"
                             v = good_reset(g, tgt["size_bits"], bo, bito, f2)
                             ov["reset"] = {"int": str(v)} if f2 == "int" else {"array": v}
+                            if "reset" in tgt and g.chance(0.3):
+                                # an override that happens to equal the target's own value is still an override:
+                                # the ref gets its own constructor
+                                ov["reset"] = json.loads(json.dumps(tgt["reset"]))
                         regs.append({"kind": "ref", "name": "Alias%d" % i, "target": tgt["name"], "override": ov})
                     cfg = {"register_address_type": "u16"}
                     big_int = any("reset" in r and "int" in r.get("reset", {}) and int(r["reset"]["int"]) >= 2 ** 63 for r in regs)
@@ -698,7 +755,7 @@ def prof_addrtype(g, n):
         out.append(case({"config": cfg, "objects": objs}, pick_syntax(g, (7, 2, 1, 1)), "addrtype"))
     return out
 
-def prof_pow2(g, n):
+def prof_pow2(g, n, kinds=("register", "register", "command")):
     """The largest absolute address is a power of two (or one off it) and is only reached as a sum at run
     time (block offset + address, last repeat index, nested blocks); the object address type is wide
     enough. This is where the choice of the internal address type (find_best_internal_address) is tight."""
@@ -712,7 +769,7 @@ def prof_pow2(g, n):
         negative = t.startswith("i") and g.chance(0.4)
         shape = g.pick(["block", "repeat", "nested", "block_repeat", "neg_stride"])
         name = g.fresh(["Reg", "Obj", "Thing"])
-        kind = g.pick(["register", "register", "command"])
+        kind = g.pick(list(kinds))
         def leaf(addr, rep=None, nm=None):
             o = {"kind": kind, "name": nm or name, "address": str(addr)}
             if kind == "register":
@@ -881,7 +938,7 @@ def prof_names(g, n):
         fill(objs, 0)
         dev = "Dev"
         defect = g.pick([None, None, None, "dup_object", "dup_field", "dup_enum", "dup_variant", "ref_missing", "ref_kind",
-                         "ref_buffer", "ref_ref", "ref_layout", "device_name", "good_ref", "good_ref", "good_ref_spelling"])
+                         "ref_buffer", "ref_ref", "ref_layout", "device_name", "good_ref", "good_ref", "good_ref_spelling", "cfg_twins"])
         regs = [o for _, o in flat if o["kind"] == "register"]
         cmds = [o for _, o in flat if o["kind"] == "command"]
         blocks = [o for _, o in flat if o["kind"] == "block"]
@@ -963,10 +1020,21 @@ def prof_names(g, n):
                     ov2 = {"kind": "block", "address_offset": str(next_addr() * 16 + 800)} if kind == "block" else {"kind": kind, "address": str(next_addr() + 300)}
                     w2 = g.pick(containers)
                     w2.insert(g.r.randint(0, len(w2)), {"kind": "ref", "name": name(), "target": t["name"], "override": ov2})
+        elif defect == "cfg_twins" and regs:
+            # the same name twice under different cfgs is not a collision (names are compared together with their cfg);
+            # the same name twice under the same cfg is. A ref to the twins resolves to the first declared one.
+            r = g.pick(regs)
+            twin = json.loads(json.dumps(r))
+            twin["address"] = str(next_addr() + 500)
+            ca, cb = ("windows", "not(windows)") if g.chance(0.7) else ("ca", "ca")
+            r["cfg"], twin["cfg"] = ca, cb
+            where.insert(pos, twin)
+            if g.chance(0.5):
+                where.append({"kind": "ref", "name": name(), "target": r["name"], "override": {"kind": "register", "address": str(next_addr() + 700)}})
         elif defect == "device_name":
             dev = g.pick(["dev", "my_dev", "myDev", "MY_DEV", "Dev_x"])
         cfg = {"register_address_type": "i32", "command_address_type": "i32", "buffer_address_type": "i32", "default_byte_order": "LE"}
-        syn = pick_syntax(g, (5, 4, 1, 1))
+        syn = pick_syntax(g, (5, 4, 1, 1)) if defect != "cfg_twins" else "dsl"   # one table cannot hold a key twice
         out.append(case({"config": cfg, "objects": objs}, syn, "names", device_name=dev, defect=defect))
     return out
 
@@ -1078,7 +1146,17 @@ def cases_for(prop, tier, seed):
             cs.append(case(common_fragment_adef(g), pick_syntax(g, (3, 3, 2, 2)), "api"))
         return CORPUS.get(prop, []) + cs
     if prop == "C09":
-        return CORPUS.get(prop, []) + prof_cmdshape(g, 240 * k)
+        return CORPUS.get(prop, []) + prof_cmdshape(g, 200 * k) + prof_pow2(g, 40 * k, kinds=("command",))
+    if prop == "C05":
+        # generator half: which constructor the accessor of a register / ref hands to RegisterOperation
+        return CORPUS.get(prop, []) + [c for c in prof_reset(g, tier) if c["profile"] == "reset_ok"][: (60 if thorough else 12)]
+    if prop == "C01":
+        # the generated accessors must name the codec of the effective byte / bit order for every size
+        return CORPUS.get(prop, []) + prof_layout(g, 200 * k) + [case(common_fragment_adef(g), pick_syntax(g, (3, 3, 2, 2)), "api") for _ in range(150 * k)]
+    if prop == "C10":
+        # generator half: the accessor of a buffer hands BufferOperation the declared address (also below zero, also in blocks)
+        return CORPUS.get(prop, []) + prof_mixed(g, 160 * k, depth=2, neg=True, kinds=("buffer", "buffer", "register", "command"),
+                                                 field_kw={"conv_p": 0.0}, repeat_p=0.3)
     if prop == "C02":
         # the generated getter / setter wrappers of a field must name the same codec, orders and range
         return CORPUS.get(prop, []) + prof_layout(g, 150 * k) + [case(common_fragment_adef(g), pick_syntax(g, (3, 3, 2, 2)), "api") for _ in range(250 * k)]
